@@ -273,6 +273,20 @@ func c03Case(c *Ctx) *Result {
 		}
 		env.Net.SetPlan(fp.Decide)
 		env.Net.Latency = time.Duration(pick(r, 0, 1, 20)) * time.Millisecond
+		if rngFor(c.Seed, "C03-backlog", c.Idx).Intn(12) == 0 {
+			// a backlog larger than what the path takes within the graceful-close
+			// wait: several MiB over a long-delay path, Close right after the write
+			fp = newFaultPlan(env.Cfg.Users, env.Cfg.serverAddr().String(), c.Seed*17+int64(c.Idx))
+			env.Net.SetPlan(fp.Decide)
+			env.Net.Latency = time.Duration(pick(r, 100, 250)) * time.Millisecond
+			writes = []int{(3 + r.Intn(3)) << 20}
+			total = int64(writes[0])
+			closeDelay = 0
+			faultClass = "backlog-long-delay-path"
+			params["writes"] = writes
+			params["close_delay_ms"] = 0
+			params["latency_ms"] = env.Net.Latency.Milliseconds()
+		}
 		params["rules"] = fp.ruleStrings()
 		params["drop"] = fp.DropRate
 	} else {
